@@ -1,5 +1,6 @@
 import OdakProofs.Lemmas.Kernels
 import OdakProofs.Lemmas.PropagateLemmas
+import OdakProofs.Lemmas.NumpyPipelines
 
 /-! # C01 – free-space propagation conserves optical energy and never creates it
   All statements: every grid size `n × m` (even, odd, non-square), every complex field `u`,
@@ -65,5 +66,12 @@ theorem C01_binary_aperture_idempotent {n m : Nat} (u H A : CGrid ℝ n m)
 /-- non-vacuity: the sampling hypothesis is satisfiable (λ = 1/2, dx = 1) and the energy
     statements have no hypotheses at all -/
 example : (0 : ℝ) < 1 ∧ ((1 : ℝ) / 2) ^ 2 ≤ 2 * (1 : ℝ) ^ 2 := by norm_num
+
+/-- NumPy `transfer_function_fresnel` (`ifftshift(ifft2(fftshift(H)·fft2(fftshift u)·c))/c`, which does
+    not go through `custom`): the constant `c = (1/(nu·dx))²` cancels, the shifted kernel has unit
+    modulus, the shifts are permutations, Parseval both ways — energy unchanged, every grid size. -/
+theorem C01_np_tf_conserves_energy {n m : Nat} (u : CGrid ℝ n m) (dx lam k z : ℝ) (hdx : 0 < dx) (hm : 0 < m) :
+    CGrid.energy (npTF u dx lam k z) = CGrid.energy u :=
+  energy_npTF u dx lam k z (pos_ne m dx hdx hm)
 
 end Odak
